@@ -5,7 +5,7 @@
     need the whole engine (at most one start per attempt across duplicate pushes,
     restarts and commands) are the monitor clauses (2,2) (2,4) of [EngineMon]. *)
 From Coq Require Import List ZArith Bool Arith.
-From FF Require Import Sx StoreModel StoreCheck TaskRun TaskRunFacts EngineCore EngineCoreFacts.
+From FF Require Import Sx StoreModel StoreCheck TaskRun TaskRunFacts Engine EngineFacts.
 Import ListNotations.
 Local Open Scope Z_scope.
 
@@ -55,33 +55,46 @@ Theorem C02_phase_error_contained : forall p ph o q,
 Proof. exact phase_error_leads_to_fail. Qed.
 Print Assumptions C02_phase_error_contained.
 
-(** --- engine level (EngineCore: parser knowledge, executor runs and persisted statuses of one instance as a
-    transition system; scope: failures, retry command, crash/restart, watchdog failing a dead run).  The
-    statements hold for every history in which no delivery is accepted with a stale snapshot
-    ([validate = true]); the code as it is admits such a delivery after a retry command re-initialised the
-    instance, and then every one of them fails ([..._unvalidated_refuted]; known finding F-dup-push,
-    reproduced on the real code).  Journals of the real engine in this scope are checked to be histories of
-    EngineCore ([EngineCoreCheck.check_core]) and the hypothesis is monitored on them. --- *)
+(** --- engine level (Engine: persisted task and instance statuses, the parser's tree and event queue, the
+    executor's registered runs and the deliveries under way, the retry command in its phases, crash and
+    restart, the watchdog - one instance as a transition system at the granularity of single store writes
+    and goroutine hand-overs; scope: tasks without pre-checks, failures in every phase, retry commands
+    also while the instance is busy, no-op commands).  The statements hold for every history in which no
+    delivery is accepted with a stale snapshot ([validate = true], the other switches arbitrary); the code
+    as it is admits such a delivery after a retry command re-initialised a busy instance, and then every
+    one of them fails ([..._unvalidated_refuted]; known finding F-dup-push, reproduced on the real code).
+    Journals of the real engine in this scope are checked to be histories of Engine
+    ([EngineCheck.check_core]) and the hypothesis is monitored on them. --- *)
 
 (** at most one main-action start per attempt, across duplicate pushes, crashes and restarts: a start
     requires that none happened in the attempt, and only the retry command of that task opens a new attempt *)
-Theorem C02_engine_once_per_attempt : forall tasks deps ls s t s',
-  run tasks deps true boot ls = Some s -> step tasks deps true s (MainStart t) = Some s' ->
+Theorem C02_engine_once_per_attempt : forall tasks deps cq nn ls s t s',
+  run tasks deps true cq nn boot ls = Some s -> step tasks deps true cq nn s (MainStart t) = Some s' ->
   started s t = false /\ started s' t = true.
 Proof.
-  intros tasks deps ls s t s' Hr Hs.
-  exact (main_start_once tasks deps s t s' (inv_reach tasks deps ls boot s (inv_boot deps) Hr) Hs).
+  intros tasks deps cq nn ls s t s' Hr Hs.
+  exact (main_start_once tasks deps cq nn s t s' (inv_reach tasks deps cq nn ls boot s (inv_boot deps) Hr) Hs).
 Qed.
 Print Assumptions C02_engine_once_per_attempt.
 
-Theorem C02_engine_attempt_ends_only_by_retry : forall tasks deps s l s' t,
-  step tasks deps true s l = Some s' -> started s t = true -> l <> Rearm t -> started s' t = true.
+(** ... and only when 'running' is the task's persisted status, written by this very run *)
+Theorem C02_engine_start_after_running_stored : forall tasks deps cq nn ls s t s',
+  run tasks deps true cq nn boot ls = Some s -> step tasks deps true cq nn s (MainStart t) = Some s' ->
+  store s t = SRunning.
+Proof.
+  intros tasks deps cq nn ls s t s' Hr Hs.
+  exact (main_start_after_running tasks deps cq nn s t s' (inv_reach tasks deps cq nn ls boot s (inv_boot deps) Hr) Hs).
+Qed.
+Print Assumptions C02_engine_start_after_running_stored.
+
+Theorem C02_engine_attempt_ends_only_by_retry : forall tasks deps cq nn s l s' t,
+  step tasks deps true cq nn s l = Some s' -> started s t = true -> l <> Rearm t -> started s' t = true.
 Proof. exact started_kept. Qed.
 Print Assumptions C02_engine_attempt_ends_only_by_retry.
 
 Theorem C02_engine_unvalidated_refuted :
-  exists s, run [1; 2; 3]%Z deps3 false boot witness_dup = Some s /\
-            started s 2 = true /\ exists s', step [1; 2; 3]%Z deps3 false s (MainStart 2) = Some s'.
+  exists s, run [1; 2; 3]%Z deps3 false false true boot witness_dup = Some s /\
+            started s 2 = true /\ exists s', step [1; 2; 3]%Z deps3 false false true s (MainStart 2) = Some s'.
 Proof.
   destruct unvalidated_refuted as (s & Hr & _ & Hst & H2 & _). exists s. repeat split; assumption.
 Qed.
